@@ -1738,6 +1738,10 @@ impl Db {
 		if !new_column_options.is_valid() {
 			return Err(Error::InvalidConfiguration("Invalid column options".to_string()))
 		}
+		// Column ids are `u8`.
+		if options.columns.len() > ColId::MAX as usize {
+			return Err(Error::InvalidConfiguration("Too many columns".to_string()))
+		}
 		let (salt, version) = Self::precheck_column_operation(options)?;
 
 		options.columns.push(new_column_options);
